@@ -173,6 +173,22 @@ _PURE_METHODS = {
 _PURE_ATTRS = {__import__("struct").Struct: {"size", "format"}}
 
 
+def _operator_ns():
+    """the operator module on plain values (on objects of the evaluated program the operators are the program's own dunder methods, which
+    these functions would bypass: undecided)"""
+    import operator as _op
+
+    def plain(f):
+        def g(*a):
+            if any(isinstance(x, (Obj, ClassRef)) for x in a):
+                raise Undecided("operator.%s on an object" % f.__name__)
+            return f(*a)
+        return g
+    names = ("eq", "ne", "lt", "le", "gt", "ge", "add", "sub", "mul", "floordiv", "mod", "and_", "or_", "xor", "not_", "neg", "pos", "abs", "lshift", "rshift", "truth",
+             "contains", "getitem", "concat", "index", "invert", "pow", "is_", "is_not")
+    return Namespace(itemgetter=_op.itemgetter, **{n: plain(getattr(_op, n)) for n in names})
+
+
 class Evaluator:
     def __init__(self, repo, hooks=None, max_steps=200000, opaque=None, externals=None, method_hooks=None):
         """hooks: {call text: value or callable(args)->value} consulted before a call is resolved;
@@ -202,7 +218,7 @@ class Evaluator:
                           "defaultdict": _co.defaultdict, "OrderedDict": _co.OrderedDict, "collections": Namespace(defaultdict=_co.defaultdict, OrderedDict=_co.OrderedDict),
                           "functools": Namespace(reduce=_ft.reduce, partial=_ft.partial, lru_cache=("ident",), cache=("ident",)), "reduce": _ft.reduce, "partial": _ft.partial,
                           "lru_cache": ("ident",), "cache": ("ident",),
-                          "operator": Namespace(itemgetter=__import__("operator").itemgetter), "itemgetter": __import__("operator").itemgetter,
+                          "operator": _operator_ns(), "itemgetter": __import__("operator").itemgetter,
                           "re": Namespace(compile=_re.compile, match=_re.match, fullmatch=_re.fullmatch, search=_re.search, findall=_re.findall, sub=_re.sub, split=_re.split,
                                           IGNORECASE=_re.IGNORECASE, I=_re.I)}
         self.externals.update(externals or {})
@@ -1038,12 +1054,17 @@ class Evaluator:
             except _Return as r_:
                 return r_.v
             return None
+        if isinstance(f, _ft.partial):
+            return f(*args, **kw)    # built by the evaluator (see below): its function calls back into the evaluator
         if isinstance(f, tuple) and f and f[0] == "pyfunc":
+            # a function of the evaluated program handed to a library function (key=, accumulate(xs, f), re.sub(p, f, s)) is called back through the evaluator
+            wrap = lambda v_: (lambda *a_, **k_: self._apply(v_, list(a_), k_, e)) if (isinstance(v_, tuple) and v_ and v_[0] in ("closure", "func", "method")) or (
+                isinstance(v_, ClassRef) and f[1] is _ft.partial) else (v_[1] if isinstance(v_, tuple) and len(v_) == 2 and v_[0] == "pyfunc" else v_)
+            if f[1] is _ft.partial and args and isinstance(args[0], ClassRef):
+                args = [wrap(args[0])] + list(args[1:])      # partial(Class, …): the class is called through the evaluator when the partial is
+                return _ft.partial(*args, **kw)
             if any(isinstance(a, (Obj, ClassRef)) for a in args) and f[1] not in self.externals.values():
                 raise Undecided("builtin on object")
-            # a function of the evaluated program handed to a library function (key=, accumulate(xs, f), re.sub(p, f, s)) is called back through the evaluator
-            wrap = lambda v_: (lambda *a_: self._apply(v_, list(a_), {}, e)) if isinstance(v_, tuple) and v_ and v_[0] in ("closure", "func", "method") else (
-                v_[1] if isinstance(v_, tuple) and len(v_) == 2 and v_[0] == "pyfunc" else v_)
             args = [wrap(a_) for a_ in args]
             kw = {k_: wrap(v_) for k_, v_ in kw.items()}
             try:
